@@ -301,6 +301,17 @@ def run_matrix(item, t):
         M = [[60 + j for j in range(nc)] if i in sel else list(base[i]) for i in range(nr)]
         if exc or read(a) != want(M): t.fail("nd.FixedMatrix.setitem.vector", ctx + what + "=array(len cols)", want(M), exc or read(a))
         restore()
+        # the same store with a MASKED REFERENCE of a longer array as the source (its selected elements are not a prefix
+        # of the underlying storage): the row takes the elements the mask selects, in order
+        if nc >= 1:
+            big = vec(2 * nc + 1, lambda j: 700 + j)
+            bits = [1 if (j % 2 == 1) else 0 for j in range(2 * nc + 1)]      # selects positions 1,3,5,... (nc of them)
+            mref = big[int_array(bits)]
+            t.add("transitions"); t.cls("nd.matrix.row-store-from-masked-reference")
+            _, exc = attempt(t, "nd.FixedMatrix.setitem", lambda: a.__setitem__(ix, mref))
+            M = [[700 + 2 * j + 1 for j in range(nc)] if i in sel else list(base[i]) for i in range(nr)]
+            if exc or read(a) != want(M): t.fail("nd.FixedMatrix.setitem.vector.masked-reference-source", ctx + what + "=array[mask 0101..] (len cols)", want(M), exc or read(a))
+            restore()
         for d in (1, -1):
             if nc + d < 0: continue
             bad = C1(nc + d)
@@ -601,7 +612,7 @@ def run(R, thorough):
     items += [("var", c, sz) for c in cv for n in range(4) for sz in itertools.product((0, 1, 2), repeat=n)]
     for d in ("2d", "matrix", "varray"):
         R.declare("nd.%s.int.in-range" % d, "nd.%s.int.out-of-range" % d, "nd.%s.slice.empty" % d, "nd.%s.slice.forward" % d, "nd.%s.slice.zero-step" % d)
-    R.declare("nd.2d.mask", "nd.2d.mask-wrong-shape", "nd.varray.mask", "nd.varray.mask-wrong-length", "nd.2d.malformed-index", "nd.varray.mask.slice-of-non-adjacent-rows")
+    R.declare("nd.2d.mask", "nd.2d.mask-wrong-shape", "nd.varray.mask", "nd.varray.mask-wrong-length", "nd.2d.malformed-index", "nd.varray.mask.slice-of-non-adjacent-rows", "nd.matrix.row-store-from-masked-reference")
     ok = fork_map(run_any, items, R, "nd.worker.fatal", describe=repr)
     malformed_2d(R)
     msg = ("FixedArray2D %s sizes 0..3x0..3 (one dimension exhaustive: ints -4..4, every forward slice start,stop in {None,-4..4} step in {None,1,2,3}, zero step; other dimension 5 representatives; all masks); "
